@@ -98,9 +98,18 @@ def scope_violations(x, *, declared, effective, active_nodes, om, unproduced_sel
     return out
 
 
-def run_dag_config(acc, shape, entry, gsel, rsel, om, runner, fault):
+VALMODES = {"none": None, "zero": 0, "empty": ()}
+
+
+def run_dag_config(acc, shape, entry, gsel, rsel, om, runner, fault, valmode="term"):
     exts, consumed, outs = shape_names(shape)
     prog, provided = dag_program(shape, {e: frozenset("P") for e in exts}, set(), is_async=(runner == "async"))
+    if valmode != "term":
+        # every node returns None / a falsy value for each of its outputs: a produced value is a produced value
+        v = VALMODES[valmode]
+        for sp in prog["nodes"]:
+            if sp.get("outs"):
+                sp["behav"] = {"const": v if len(sp["outs"]) == 1 else [v] * len(sp["outs"])}
     act = set(range(len(shape))) if entry is None else _active(shape, entry)
     anc, prod = ancestors(shape)
     if entry is not None:
@@ -144,9 +153,9 @@ def run_dag_config(acc, shape, entry, gsel, rsel, om, runner, fault):
         miss = sorted(want - set(x.result.values))
         if miss:
             vs.append(({"symptom": "selected-produced-value-missing"}, f"{miss} were produced and selected but are not in the result"))
-    w = {"kind": "dag", "program": prog, "inputs": inputs, "run_select": rsel, "on_missing": om, "runner": runner, "fault": fault}
+    w = {"kind": "dag", "program": prog, "inputs": inputs, "run_select": rsel, "on_missing": om, "runner": runner, "fault": fault, "valmode": valmode}
     for sig, msg in vs:
-        acc.violation({**sig, "entry": entry is not None, "graph_select": gsel is not None, "run_select": rsel != "unset"}, w, msg)
+        acc.violation({**sig, "entry": entry is not None, "graph_select": gsel is not None, "run_select": rsel != "unset", **({"values": valmode} if valmode != "term" else {})}, w, msg if valmode == "term" else f"[every node returns {VALMODES[valmode]!r}] {msg}")
     acc.outcomes[(x.status, entry is not None, bool(unprod))] += 1
     return w
 
@@ -298,6 +307,11 @@ def run_shard(shard):
             if entry is not None and gsel is None and rsel == "unset" and om == "ignore":
                 derived_scope_history(acc, shape, entry, runner)
                 acc.key((tuple(shape), entry, "run-then-derive", runner))
+            if runner == "sync" or tier == "thorough":
+                # None / falsy produced values (one mode per configuration in the quick tier, all three in the thorough tier)
+                for vm in (list(VALMODES) if tier == "thorough" else [list(VALMODES)[ci % 3]]):
+                    run_dag_config(acc, shape, entry, gsel, rsel, om, runner, None, vm)
+                    acc.key((tuple(shape), entry, repr(gsel), repr(rsel), om, runner, "values", vm))
             for fault in faults:
                 w = run_dag_config(acc, shape, entry, gsel, rsel, om, runner, fault)
                 if entry is not None or gsel is not None or rsel != "unset":
@@ -329,5 +343,5 @@ def replay(rep):
     shape = [(tuple(sorted(s["params"])), len(s["outs"])) for s in prog["nodes"]]
     ids = [s["id"] for s in prog["nodes"]]
     entry = None if not prog.get("entry") else tuple(ids.index(e) for e in prog["entry"])
-    run_dag_config(acc, shape, entry, prog.get("select"), rep["run_select"], rep["on_missing"], rep["runner"], rep["fault"])
+    run_dag_config(acc, shape, entry, prog.get("select"), rep["run_select"], rep["on_missing"], rep["runner"], rep["fault"], rep.get("valmode", "term"))
     return [v["message"] for v in acc.violations.values()]
